@@ -148,55 +148,80 @@ Proof.
 Qed.
 
 (* ---- process_field(iovec_array&) on arbitrary bytes ---- *)
-Lemma d_iovarr_h st a st' Own c0 :
-  HR (d_mem st) (d_iov st) Own -> In c0 Own -> within (a, 24) c0 ->
-  d_iovarr st a = Ok st' -> d_failed st' = false ->
-  exists new, hpost st st' Own new [(a, 24)] /\
-    exists val w F, rd_f FIov (d_mem st') a = Ok (val, w, F) /\ fpok F [(a, 24)] new.
+Lemma flat_frame m m' R el : (forall r k, sep (r, k) R -> load m' r k = load m r k) -> (forall e, In e el -> sep e R) -> flat m' el = flat m el.
 Proof.
-  destruct st as [m v fl]. cbn [d_mem d_iov d_failed].
-  intros HR0 Hc0 Wa Hrun Hnf. pose proof HR0 as [Hinv [Hpe [HpO [HeO HvO]]]].
+  intros Fr. induction el as [|[b l] r IH]; intros Hs; [reflexivity|]. cbn [flat].
+  rewrite (Fr b l) by (apply (Hs (b, l)); left; reflexivity). rewrite IH; [reflexivity|]. intros e He. apply Hs. right. exact He.
+Qed.
+
+(* the successful outcome, relative to the byte string w0 the remaining input denotes *)
+Definition iov_ok (st : dst) (a : Z) (st' : dst) (Own : list (Z * Z)) (w0 : list byte) : Prop :=
+  d_failed st' = d_failed st /\ i_cap (d_iov st') = i_cap (d_iov st) /\ i_nb (d_iov st') <= i_nb (d_iov st) + 1 /\
+  exists new S, hpost st st' Own new [(a, 24)] /\ 0 <= S <= len w0 /\
+    (i_nb (d_iov st) < i_cap (d_iov st) -> load64 (d_mem st) (a + 16) = Ok S) /\
+    flat (d_mem st') (i_el (d_iov st')) = Ok (skipn (Z.to_nat S) w0) /\
+    exists F, rd_f FIov (d_mem st') a = Ok (VIov S (firstn (Z.to_nat S) w0), firstn (Z.to_nat S) w0, F) /\ fpok F [(a, 24)] new.
+
+Lemma d_iovarr_cases st a st' Own c0 w0 :
+  HR (d_mem st) (d_iov st) Own -> In c0 Own -> within (a, 24) c0 ->
+  flat (d_mem st) (i_el (d_iov st)) = Ok w0 ->
+  d_iovarr st a = Ok st' ->
+  (d_failed st' = true /\ exists S, load64 (d_mem st) (a + 16) = Ok S /\ (len w0 < S \/ i_cap (d_iov st) <= i_nb (d_iov st))) \/
+  iov_ok st a st' Own w0.
+Proof.
+  destruct st as [m v fl]. unfold iov_ok. cbn [d_mem d_iov d_failed].
+  intros HR0 Hc0 Wa Hf Hrun. pose proof HR0 as [Hinv [Hpe [HpO [HeO HvO]]]].
   pose proof (inv_wf _ _ Hinv) as Hwf. pose proof (inv_bytes _ _ Hinv) as Hbm.
   pose proof Hinv as [_ [_ [Hel [Hsum [Hnb [Hroom Hcnt]]]]]].
+  pose proof (flat_len _ _ _ Hel Hf) as Hlw. pose proof (len_nonneg w0) as Hw0.
   assert (Hv24 : validb (lens m) a 24 = true).
   { apply (validb_sub' _ (fst c0) (snd c0)); [exact Hwf|apply HvO; exact Hc0| |]; unfold within in Wa; cbn [fst snd] in Wa; lia. }
   assert (Hv2 : validb (lens m) (a + 16) 8 = true) by (apply (validb_sub' _ a 24); auto; lia).
   destruct (load64_ok m (a + 16) Hbm Hv2) as [summed [Es Rs]].
-  (* the case where the slot ends up empty: (0, 0, 0), nothing claimed *)
+  (* the case where the slot ends up empty: (0, 0, 0), nothing claimed, nothing consumed *)
   assert (Hempty : forall m4, inv m4 v -> lens m4 = lens m -> load64 m4 a = Ok 0 -> load64 m4 (a + 8) = Ok 0 -> load64 m4 (a + 16) = Ok 0 ->
             (forall r k, sep (r, k) (a, 24) -> load m4 r k = load m r k) ->
-            exists new, hpost (mkD m v fl) (mkD m4 v fl) Own new [(a, 24)] /\
-              exists val w F, rd_f FIov m4 a = Ok (val, w, F) /\ fpok F [(a, 24)] new).
-  { intros m4 Hi4 Hl4 L0 L1 L2 Fr. exists []. split.
+            (i_nb v < i_cap v -> summed = 0) ->
+            exists new S, hpost (mkD m v fl) (mkD m4 v fl) Own new [(a, 24)] /\ 0 <= S <= len w0 /\
+              (i_nb v < i_cap v -> load64 m (a + 16) = Ok S) /\
+              flat m4 (i_el v) = Ok (skipn (Z.to_nat S) w0) /\
+              exists F, rd_f FIov m4 a = Ok (VIov S (firstn (Z.to_nat S) w0), firstn (Z.to_nat S) w0, F) /\ fpok F [(a, 24)] new).
+  { intros m4 Hi4 Hl4 L0 L1 L2 Fr Hsz. exists [], 0. split.
     { unfold hpost. cbn [d_mem d_iov]. rewrite app_nil_r. split.
       { split; [exact Hi4|]. split; [exact Hpe|]. split; [exact HpO|]. split; [exact HeO|]. rewrite Hl4. exact HvO. }
       split; [rewrite Hl4; apply ext_refl|]. split; [apply prov_refl|]. split; [intros c []|].
       intros x k _ Hs. apply Fr. apply Hs. left. reflexivity. }
-    exists (VIov 0 []), [], [(a, 24); (0, 0)]. split.
-    { cbn [rd_f]. rewrite L0. cbn [bind]. rewrite L1. cbn [bind]. rewrite L2. cbn [bind]. reflexivity. }
+    split; [lia|]. split; [intros Hc; rewrite Es, (Hsz Hc); reflexivity|].
+    split.
+    { cbn [Z.to_nat skipn]. rewrite (flat_frame m m4 (a, 24) (i_el v) Fr); [exact Hf|].
+      intros e He. eapply sep_sub_r; [apply (HeO e c0 He Hc0)|exact Wa]. }
+    exists [(a, 24); (0, 0)]. split.
+    { cbn [rd_f Z.to_nat firstn]. rewrite L0. cbn [bind]. rewrite L1. cbn [bind]. rewrite L2. cbn [bind]. reflexivity. }
     intros r [<-|[<-|[]]]; [|left; cbn; lia]. right. left. exists (a, 24). split; [left; reflexivity|apply within_refl]. }
   assert (H0 : 0 <= 0 < W64) by (unfold W64; lia).
-  revert Hrun. unfold d_iovarr. cbn [d_mem d_iov d_failed]. rewrite Es. cbn [bind].
+  unfold d_iovarr in Hrun. cbn [d_mem d_iov d_failed] in Hrun. rewrite Es in Hrun. cbn [bind] in Hrun. revert Hrun.
   destruct (Z.eq_dec summed 0) as [->|Hs0].
   { unfold extract_front_view. rewrite Z.eqb_refl. cbn [bind]. rewrite wrap_small by (unfold W64; lia). rewrite Z.eqb_refl.
     change (0 * 16) with 0. rewrite (load_nonpos m 0 0) by lia. cbn [bind].
     destruct (store3 m v a 0 0 0 Hinv Hv24 H0 H0 H0) as [m2 [m3 [m4 [S2 [S3 [S4 [Hi4 [Hl4 [L0 [L1 [L2 Fr]]]]]]]]]]].
     rewrite S2. cbn [bind]. rewrite S3. cbn [bind]. rewrite S4. cbn [bind].
-    intros Hrun. inversion Hrun. subst st'. cbn [d_mem d_iov]. apply Hempty; auto. }
-  destruct (flat_total m (i_el v) Hel) as [w Hf]. pose proof (flat_len _ _ _ Hel Hf) as Hlw.
-  pose proof (sum_el_nonneg _ _ Hel) as Hsn.
-  destruct (efv_spec m v summed w Hinv ltac:(lia) Hpe Hf) as [ret [ptr [cnt [m1 [v1 [He [Hi1 [Hx1 Hcase]]]]]]]].
+    intros Hrun. inversion Hrun. subst st'. cbn [d_mem d_iov d_failed]. right.
+    split; [reflexivity|]. split; [reflexivity|]. split; [lia|]. apply Hempty; auto. }
+  destruct (efv_spec m v summed w0 Hinv ltac:(lia) Hpe Hf) as [ret [ptr [cnt [m1 [v1 [He [Hi1 [Hx1 Hcase]]]]]]]].
   rewrite He. cbn [bind].
-  destruct Hcase as [[-> [-> [-> [-> ->]]]]|[Hret [Hptr Hvp]]].
+  destruct Hcase as [[-> [-> [-> [-> [-> Hcapf]]]]]|[Hret [Hptr Hvp]]].
   { (* allocation failure *)
-    destruct (wrap (-1) =? summed); [|intros Hrun; inversion Hrun; subst st'; cbn [d_failed] in Hnf; discriminate].
+    destruct (wrap (-1) =? summed).
+    2:{ intros Hrun; inversion Hrun; subst st'; cbn [d_failed]. left. split; [reflexivity|]. exists summed. auto. }
     change (0 * 16) with 0. rewrite (load_nonpos m 0 0) by lia. cbn [bind]. rewrite Z.eqb_refl.
     destruct (store3 m v a 0 0 0 Hinv Hv24 H0 H0 H0) as [m2 [m3 [m4 [S2 [S3 [S4 [Hi4 [Hl4 [L0 [L1 [L2 Fr]]]]]]]]]]].
     rewrite S2. cbn [bind]. rewrite S3. cbn [bind]. rewrite S4. cbn [bind].
-    intros Hrun. inversion Hrun. subst st'. cbn [d_mem d_iov]. apply Hempty; auto. }
+    intros Hrun. inversion Hrun. subst st'. cbn [d_mem d_iov d_failed]. right.
+    split; [reflexivity|]. split; [reflexivity|]. split; [lia|]. apply Hempty; auto. intros Hc. lia. }
   assert (Hret2 : 0 <= ret <= INT_MAX) by lia.
   rewrite wrap_small by (unfold INT_MAX, W64 in *; lia).
-  destruct (ret =? summed) eqn:Er; [|intros Hrun; inversion Hrun; subst st'; cbn [d_failed] in Hnf; discriminate].
+  destruct (ret =? summed) eqn:Er.
+  2:{ apply Z.eqb_neq in Er. intros Hrun; inversion Hrun; subst st'; cbn [d_failed]. left. split; [reflexivity|]. exists summed. split; [exact Es|]. left. lia. }
   apply Z.eqb_eq in Er.
   destruct (Hvp ltac:(lia)) as [out [Hcnt' [Hcpos [Hl1 [_ [Hcap1 [Hnb1 [Fr1 [Helo [Hpo [Hpv [Ps1 [Pr1 [Hso [Hrd [Hfl1 [Hlo Hcapnb]]]]]]]]]]]]]]]]].
   pose proof (inv_wf _ _ Hi1) as Hwf1.
@@ -215,7 +240,8 @@ Proof.
   { unfold W64. lia. }
   { destruct (cnt =? 0); [unfold W64; lia|exact Rs]. }
   rewrite S2. cbn [bind]. rewrite S3. cbn [bind]. rewrite S4. cbn [bind].
-  intros Hrun. inversion Hrun. subst st'. cbn [d_mem d_iov d_failed] in *.
+  intros Hrun. inversion Hrun. subst st'. cbn [d_mem d_iov d_failed] in *. right.
+  split; [reflexivity|]. split; [exact Hcap1|]. split; [lia|].
   destruct (cnt =? 0) eqn:Ec0; [apply Z.eqb_eq in Ec0; lia|].
   set (slot := (ptr, cnt * 16)).
   (* separation facts *)
@@ -235,7 +261,7 @@ Proof.
   { intros e He'. destruct (Pr1 e He') as [e0 [H0' We]]. eapply within_sep; [exact We|]. destruct e0 as [eb en]. apply Hfresh. apply (HvEl (eb, en) H0'). }
   assert (Hslot_own : forall c, In c Own -> sep c slot).
   { intros c Hc. destruct c as [cb cn]. apply Hfresh. apply (HvO (cb, cn) Hc). }
-  exists (slot :: out). split.
+  exists (slot :: out), summed. split.
   { unfold hpost. cbn [d_mem d_iov]. split.
     { split; [exact Hi4|]. split; [exact Ps1|]. split.
       { apply psep_app. split; [exact HpO|]. split.
@@ -259,20 +285,36 @@ Proof.
       - left. apply Hpv. exact Hc. }
     intros x k [c [Hc Wc]] Hsx. rewrite Fr4 by (apply Hsx; left; reflexivity).
     apply Fr1. apply (validb_sub' _ (fst c) (snd c)); [exact Hwf|apply HvO; exact Hc| |]; unfold within in Wc; cbn [fst snd] in Wc; lia. }
+  split; [lia|]. split; [intros _; exact Es|].
+  split.
+  { rewrite (flat_frame m1 m4 (a, 24) (i_el v1) Fr4); [exact Hfl1|].
+    intros e He'. eapply sep_sub_r; [apply (Hel1_own e c0 He' Hc0)|exact Wa]. }
   (* reading the iovec array back *)
   assert (Hc24 : sep slot (a, 24)).
   { apply sep_sym. eapply within_sep; [exact Wa|]. apply Hslot_own. exact Hc0. }
-  assert (Hrd4 : rd_iovecs m4 ptr (length out) = Ok (firstn (Z.to_nat summed) w, out)).
+  assert (Hrd4 : rd_iovecs m4 ptr (length out) = Ok (firstn (Z.to_nat summed) w0, out)).
   { apply (rd_iovecs_stable m1 m4 (length out) ptr slot _ Hrd).
     - intros x k Wx. apply Fr4. eapply within_sep; [exact Wx|exact Hc24].
     - unfold slot, within. cbn [fst snd]. rewrite Hcnt'. unfold len. lia.
     - cbn [snd]. intros r Hr x k Wx. apply Fr4. eapply within_sep; [exact Wx|].
       apply sep_sym. eapply within_sep; [exact Wa|]. apply sep_sym. apply Hout_own; auto. }
-  exists (VIov summed (firstn (Z.to_nat summed) w)), (firstn (Z.to_nat summed) w), ((a, 24) :: slot :: out). split.
+  exists ((a, 24) :: slot :: out). split.
   { cbn [rd_f]. rewrite L0. cbn [bind]. rewrite L1. cbn [bind]. rewrite L2. cbn [bind].
     replace (Z.to_nat (cnt * 16 / 16)) with (length out) by (rewrite Z.div_mul by lia; rewrite Hcnt'; unfold len; lia).
     rewrite Hrd4. reflexivity. }
   intros r [<-|Hr].
   - right. left. exists (a, 24). split; [left; reflexivity|apply within_refl].
   - right. right. exists r. split; [exact Hr|apply within_refl].
+Qed.
+
+Lemma d_iovarr_h st a st' Own c0 :
+  HR (d_mem st) (d_iov st) Own -> In c0 Own -> within (a, 24) c0 ->
+  d_iovarr st a = Ok st' -> d_failed st' = false ->
+  exists new, hpost st st' Own new [(a, 24)] /\
+    exists val w F, rd_f FIov (d_mem st') a = Ok (val, w, F) /\ fpok F [(a, 24)] new.
+Proof.
+  intros HR0 Hc0 Wa Hrun Hnf. pose proof HR0 as [[_ [_ [Hel _]]] _].
+  destruct (flat_total _ _ Hel) as [w0 Hf].
+  destruct (d_iovarr_cases st a st' Own c0 w0 HR0 Hc0 Wa Hf Hrun) as [[Hft _]|[_ [_ [_ [new [S [HP [_ [_ [_ [F [Hrd Hfp]]]]]]]]]]]]; [congruence|].
+  exists new. split; [exact HP|]. eauto.
 Qed.
